@@ -7,7 +7,8 @@
      4  an OR below an AND in a CHECK (the stored text has lost the parentheses)
     10  a multi-row INSERT that fails after its first row (the earlier rows stay: F-C06-1)
     11  a DELETE / UPDATE whose row selection includes a tombstoned entry
-    12  an UPDATE assigning one non-NULL value to a key column of two or more rows
+    12  an UPDATE assigning one non-NULL value to a key column of two or more rows (accepted
+        when the value is not yet in the index; refused otherwise, which is right)
     13  an UPDATE of a key column in a table without PRIMARY KEY (new value not indexed)
     14  an UPDATE that meets an index entry whose stored row key is not the owner's row id
     15  an UPDATE that breaks a FOREIGN KEY (child value without parent / referenced parent
@@ -110,7 +111,7 @@ Fixpoint upd_key_class_from (all ds : list cdecl) (i : nat) (ts : tstate) (sets 
       | Some nv =>
           if is_key d && negb (is_null nv) && nonempty_l sel
           then
-            if two_plus sel && negb (idx_mem nv (get_idx ts i)) then 12
+            if two_plus sel then 12
             else if match pk_pos all with None => true | Some _ => false end then 13
             else match idx_find nv (get_idx ts i), owner_id ts i nv with
                  | Some k, Some o => if k =? o then rest else 14
